@@ -1,4 +1,5 @@
-"""C12 probe: drive every (position, word) cell over gRPC and REST."""
+"""C12 probe: drive every (position, word) cell over sync gRPC, asyncio gRPC and REST."""
+import asyncio
 import inspect
 import json
 import urllib.parse
@@ -29,6 +30,7 @@ def main(p):
     def ok(k):
         out['outcomes'][k] = out['outcomes'].get(k, 0) + 1
 
+    aio_plans = []
     for cell in a['cells']:
         w, pos = cell['word'], cell['position']
         pw = names.py_field(w)
@@ -73,6 +75,13 @@ def main(p):
             elif pos == 'routing-field':
                 setattr(exp, w, 'route-me')
                 req = {pw: 'route-me'}
+            elif pos == 'required-query':
+                setattr(exp, w, 'v1')
+                exp.extra = 'e'
+                req = {pw: 'v1', 'extra': 'e'}
+            elif pos == 'required-query-default':
+                exp.extra = 'e'
+                req = {'extra': 'e'}
             elif pos in ('rpc-name', 'rpc-name-capitalised'):
                 exp.name = 'n'
                 req = {'name': 'n'}
@@ -87,7 +96,7 @@ def main(p):
             continue
         # ---- introspection: the python-visible name
         if pos in ('top-field', 'nested-field', 'path-var', 'path-var-dotted-first', 'path-var-dotted-last', 'body-field',
-                   'routing-field'):
+                   'routing-field', 'required-query', 'required-query-default'):
             owner = G
             if pos == 'nested-field':
                 owner = lib.type_of(f'.{tp}.Holder', tp)
@@ -111,39 +120,44 @@ def main(p):
             probelib.fill_all(reply, 2, 0)
         else:
             reply.ok = True
+        def judge_grpc(path, log, cell=cell, w=w, pos=pos, Dreq=Dreq, exp=exp):
+            e = log[0] if log else None
+            if e is None or len(log) != 1:
+                return fail(cell, path, 'call-count', len(log))
+            exp_path = f'/{tp}.Kw/{cell["rpc"]}'
+            if e['path'] != exp_path:
+                fail(cell, path, 'rpc-path', f'{e["path"]} != {exp_path}')
+            got = Dreq.FromString(e['raw'])
+            if got != exp:
+                fail(cell, path, 'request-mismatch', f'{probelib.short(got)!r} != {probelib.short(exp)!r}')
+            hdr = dict((e['metadata'] or [])).get(HDR)
+            if pos in ('path-var', 'path-var-dotted-first', 'path-var-dotted-last', 'routing-field'):
+                key = {'path-var': w, 'path-var-dotted-first': f'{w}.name', 'path-var-dotted-last': f'inner.{w}',
+                       'routing-field': w}[pos]
+                val = 'route-me' if pos == 'routing-field' else 'items/x1'
+                pairs = dict(urllib.parse.parse_qsl(hdr or '', keep_blank_values=True))
+                if pairs != {key: val}:
+                    fail(cell, path, 'routing-key', f'header {hdr!r} decodes to {pairs}, expected {{{key!r}: {val!r}}}')
+            ok('ok-' + path)
+            out['nontrivial'].append(cell['id'] if path == 'grpc' else f'{cell["id"]}|{path}')
+
+        def call_args(kwargs=kwargs, req=req, G=G, exp=exp):
+            if kwargs is not None:
+                return dict(kwargs)
+            if req is not None:
+                return dict(request=dict(req))
+            return dict(request=G.deserialize(exp.SerializeToString()))
+
         # ---- gRPC
         ch.log.clear()
         ch.script = [reply.SerializeToString()]
         try:
-            if kwargs is not None:
-                meth(**kwargs)
-            elif req is not None:
-                meth(request=req)
-            else:
-                meth(request=G.deserialize(exp.SerializeToString()))
+            meth(**call_args())
             out['calls'] += 1
-            e = ch.log[0] if ch.log else None
-            if e is None or len(ch.log) != 1:
-                fail(cell, 'grpc', 'call-count', len(ch.log))
-            else:
-                exp_path = f'/{tp}.Kw/{cell["rpc"]}'
-                if e['path'] != exp_path:
-                    fail(cell, 'grpc', 'rpc-path', f'{e["path"]} != {exp_path}')
-                got = Dreq.FromString(e['raw'])
-                if got != exp:
-                    fail(cell, 'grpc', 'request-mismatch', f'{probelib.short(got)!r} != {probelib.short(exp)!r}')
-                hdr = dict((e['metadata'] or [])).get(HDR)
-                if pos in ('path-var', 'path-var-dotted-first', 'path-var-dotted-last', 'routing-field'):
-                    key = {'path-var': w, 'path-var-dotted-first': f'{w}.name', 'path-var-dotted-last': f'inner.{w}',
-                           'routing-field': w}[pos]
-                    val = 'route-me' if pos == 'routing-field' else 'items/x1'
-                    pairs = dict(urllib.parse.parse_qsl(hdr or '', keep_blank_values=True))
-                    if pairs != {key: val}:
-                        fail(cell, 'grpc', 'routing-key', f'header {hdr!r} decodes to {pairs}, expected {{{key!r}: {val!r}}}')
-                ok('ok-grpc')
-                out['nontrivial'].append(cell['id'])
+            judge_grpc('grpc', list(ch.log))
         except BaseException as ex:
             fail(cell, 'grpc', 'exception', probelib.exc_info(ex))
+        aio_plans.append((cell, call_args, judge_grpc, reply.SerializeToString()))
         # ---- REST
         rmeth = getattr(rclient, cell['py'], None)
         seam.log.clear()
@@ -180,6 +194,28 @@ def main(p):
             fail(cell, 'rest', 'exception', probelib.exc_info(ex))
         if len(out['samples']) < 2:
             out['samples'].append(dict(cell=cell['id'], python_name=pw, rpc=cell['rpc'], method=cell['py']))
+
+    # ---- asyncio gRPC: same cells, same judgement
+    async def amain():
+        try:
+            ac, ach = lib.aio('Kw')
+        except BaseException as ex:
+            out['failures'].append(dict(cell='-', path='grpc-asyncio', kind='client-construction', detail=str(probelib.exc_info(ex))[:400]))
+            return
+        for cell, call_args, judge, raw in aio_plans:
+            am = getattr(ac, cell['py'], None)
+            if am is None:
+                fail(cell, 'grpc-asyncio', 'method-name', f'asyncio client has no method {cell["py"]!r}')
+                continue
+            ach.log.clear()
+            ach.script = [raw]
+            try:
+                await am(**call_args())
+                out['calls'] += 1
+                judge('grpc-asyncio', list(ach.log))
+            except BaseException as ex:
+                fail(cell, 'grpc-asyncio', 'exception', probelib.exc_info(ex))
+    asyncio.run(amain())
     return out
 
 
